@@ -12,9 +12,9 @@ Part 2 (checks/c11meta.py): structured vs hand-flattened module pairs and load-o
 import itertools, os, re
 from vlib.proto import hexs, unhex
 
-LEAN_TARGETS = ["LyModel.Props.C11", "LyModel.Props.C11Range"]
+LEAN_TARGETS = ["LyModel.Props.C11", "LyModel.Props.C11Range", "LyModel.Props.C11Compile"]
 AUDIT = "Audit/C11.lean"
-GENERATED = ["Consts", "IffSrc"]
+GENERATED = ["Consts", "IffSrc", "CompileSrc"]
 ASSUMPTIONS = [
     "if-feature: `lysp_feature_find` (prefix resolution + lookup by name) is an abstract function `lookup` in the theorems; the driver instantiates it with the module/import table of the request",
     "if-feature theorems are about YANG 1.1 modules (the YANG 1.0 `checkversion` path is covered by the correspondence only); feature names in the grammar AST are any blank/parenthesis-free words other than the literal keywords not/and/or",
@@ -31,6 +31,10 @@ CRASH_KINDS = {"CrashOobWrite": "F13", "CrashOobFeat": "F13", "CrashUnderflow": 
 
 def classify(component, what, case):
     """A failing case is an instance of a known finding only if it has exactly that finding's mechanism."""
+    from checks import c11exp
+    fid = c11exp.classify_exp(component, what, case)
+    if fid:
+        return fid
     if case.get("crash") and component == "compile":
         err = case.get("stderr", "")
         # UBSan reports "schema_compile_node.c:<line>:<col>: runtime error: member access within null pointer of type
@@ -480,6 +484,8 @@ def run(cx):
     c11meta.run_meta(cx)
     from checks import c11aug
     c11aug.run_aug(cx)
+    from checks import c11exp
+    c11exp.run_exp(cx)
 
 
 def replay(cx, payload):
